@@ -86,6 +86,10 @@ impl<T: Clone + TTOverwriteable> TranspositionTable<T> {
     }
 
     pub fn insert(&mut self, key: &ZobristHash, data: T) {
+        if self.data.is_empty() {
+            return;
+        }
+
         let idx = self.get_entry_idx(key);
 
         // !: We know the exact size of the table and will always access within the bounds.
@@ -109,6 +113,10 @@ impl<T: Clone + TTOverwriteable> TranspositionTable<T> {
     }
 
     pub fn get(&self, key: &ZobristHash) -> Option<&T> {
+        if self.data.is_empty() {
+            return None;
+        }
+
         let idx = self.get_entry_idx(key);
 
         // !: We know the exact size of the table and will always access within the bounds.
